@@ -29,3 +29,12 @@ Definition run_c10 (c : tfcase) : bool :=
   let e := m_encrypt cf (tf_nu c) key (tf_t0 c) (tf_t1 c) blk in
   let d := m_decrypt cf (tf_nu c) key (tf_t0 c) (tf_t1 c) blk in
   list_eqb e (B n (tf_enc c)) && list_eqb d (B n (tf_dec c)).
+
+(** model E(b), model D(b), spec E(b) as little-endian numbers, for replay files *)
+Definition explain_tf (c : tfcase) : list N :=
+  let n := tf_size c / 8 in
+  let key := B n (tf_key c) in let blk := B n (tf_block c) in
+  let cf := cfg_of (tf_size c) in
+  [le_join (m_encrypt cf (tf_nu c) key (tf_t0 c) (tf_t1 c) blk);
+   le_join (m_decrypt cf (tf_nu c) key (tf_t0 c) (tf_t1 c) blk);
+   le_join (Spec.Threefish.spec_encrypt (spec_of (tf_size c)) key (tf_t0 c) (tf_t1 c) blk)].
